@@ -562,7 +562,8 @@ Definition ascii_word (x : Z) : bool :=
 
 Definition in_rng (a b x : Z) : bool := (a <=? x) && (x <=? b).
 
-(* set ids: 0 [Aa]  1 [BCbc]  2 [Xx]  3 [Yy]  4 [^BCbc]  5 [A-Za-zſK-[Mm]]  6 [a-z-[m]] NOT closed *)
+(* set ids: 0 [Aa]  1 [BCbc]  2 [Xx]  3 [Yy]  4 [^BCbc]  5 [A-Za-zſK-[Mm]]  6 [A-Za-z-[m]] NOT closed:
+   the shape built for (?i)[a-z-[m]] before addCaseEquivalences descended into the subtraction *)
 Definition ex_set_in (sid x : Z) : bool :=
   if sid =? 0 then (x =? 65) || (x =? 97)
   else if sid =? 1 then in_rng 66 67 x || in_rng 98 99 x
@@ -571,7 +572,7 @@ Definition ex_set_in (sid x : Z) : bool :=
   else if sid =? 4 then negb (in_rng 66 67 x || in_rng 98 99 x)
   else if sid =? 5 then (in_rng 65 90 x || in_rng 97 122 x || (x =? 383) || (x =? 8490))
                         && negb ((x =? 77) || (x =? 109))
-  else if sid =? 6 then in_rng 97 122 x && negb (x =? 109)
+  else if sid =? 6 then (in_rng 65 90 x || in_rng 97 122 x) && negb (x =? 109)
   else false.
 
 Definition ex_env (text : list Z) : env :=
@@ -584,6 +585,9 @@ Definition ex_tree1 : node :=
                                 NMulti 0 [49; 50];
                                 NRef 1 1;
                                 NAnchor AEndZ]).
+(* (?i)a[b-c]+ under RightToLeft:  Capture-L(Concatenate-L(Setloop-L[BCbc]{1,inf} Set-L[Aa])) *)
+Definition ex_tree3 : node :=
+  NCapture 64 0 (-1) (NConcat 64 [NCharLoop CSet LGreedy 65 1 1 INF; NChar CSet 65 0]).
 Definition ex_tree2 : node :=
   NCapture 0 0 (-1) (NConcat 1 [NChar CSet 1 2; NChar CSet 1 3; NChar CSet 1 4; NChar CSet 1 5;
                                 NAnchor ABoundary]).
